@@ -105,6 +105,12 @@ def fresh_main(path):
 
 def fresh(job, tmp, idx):
     p = os.path.join(tmp, "job-%d.json" % idx)
+    if idx % 3 == 2 and job["op"]["op"] in ("diff_notebooks", "merge_notebooks", "diff"):
+        # the fresh interpreter is handed the same JSON documents with another member order inside every object:
+        # "depends only on those two notebooks" - JSON objects are unordered
+        from ..workloads import shuffle_keys
+        rr = random.Random(idx)
+        job = dict(job, op={k: (shuffle_keys(v, rr) if k in ("A", "B", "a", "b", "base", "local", "remote") else v) for k, v in job["op"].items()})
     with open(p, "w") as f:
         json.dump(job, f)
     pr = subprocess.run([sys.executable, "-m", "vmon.props.c12", "--fresh", p], capture_output=True, timeout=300, cwd=os.getcwd())
